@@ -122,7 +122,7 @@ def build_factory_b(cfg):
     def build(chooser, log):
         from syne_tune import Tuner, StoppingCriterion
         R = cfg["R"]
-        sched, info = scheds.make(cfg["kind"], mode="min", seed=cfg["seed"], R=R, mra=True)
+        sched, info = scheds.make(cfg["kind"], mode="min", seed=cfg["seed"], R=R, mra=cfg.get("mra", True))
         tunerx.wrap_scheduler(sched, log)
         R_job = R + 2 if cfg["kind"] == "pbt" else R
         spec = ScriptSpec(table(8, R_job, 1.0, two=info["metrics"] is not None), R_job, metrics=info["metrics"],
@@ -238,7 +238,7 @@ def configs(tier, seed):
                 for pi, prof in enumerate(tunerx.PROFILES):
                     if (pi + ki + mf + W + seed) % (8 if tier == "quick" else 2) != 0:
                         continue
-                    out.append(("B", dict(kind=kind, W=W, R=3, seed=seed, profile=prof, F=2, max_failures=mf,
+                    out.append(("B", dict(kind=kind, W=W, R=3, seed=seed, profile=prof, F=2, max_failures=mf, mra=(pi + mf) % 3 != 0,
                                           stop={"max_num_trials_started": 5}, wait=(pi % 2 == 0), k=2 if tier == "quick" else 3,
                                           max_exec=400 if tier == "quick" else 6000)))
     return out
